@@ -237,6 +237,12 @@ def run(case, choices):
             elif m.status != code << 8:
                 res.violate("C03:boot-failure-wrong-status:%d" % code,
                             "a worker exited with status %d; the master exited with wait-status %r instead of %d<<8; %s" % (code, m.status, code, ctx()))
+            if m.state != "running":
+                left = sorted(p_.pid for p_ in sim.procs.values() if p_.name.startswith("worker") and p_.state == "running")
+                if left and sim.now > getattr(m, "exit_time", sim.now) + 0.5:
+                    res.violate("C03:worker-outlives-halted-master", "the master halted (status %r) because a worker could not boot, but worker "
+                                "process(es) %r are still running %.1f s later: they were never told to stop; %s"
+                                % (m.status, left, sim.now - getattr(m, "exit_time", sim.now), ctx()))
             if state["forks_after_boot_exit"] > 3:
                 res.violate("C03:respawn-after-boot-failure", "%d forks after the failing boot; %s" % (state["forks_after_boot_exit"], ctx()))
         elif m.state != "running":
